@@ -17,7 +17,7 @@ def local_callees(ctx, body):
     out = []
 
     def f(n):
-        if n.get('k') == 'Call' and n.get('fn'):
+        if n.get('k') in ('Call', 'Zst') and isinstance(n.get('fn'), dict):       # calls and function items passed as values
             fn = n['fn']
             if fn.get('local') and fn.get('container') != 'trait':
                 out.append(callee_key(fn))
